@@ -556,6 +556,71 @@ static void case_jsgf_big(const char *s)
     }
 }
 
+/* ---- grammar text crossed with the documented configuration parameters that select how the text is used
+ * (flag "cfg:<toprule hex or ->:<lw>:<fsgusealtpron>:<fsgusefiller>"): the parameters are set on the live
+ * decoder configuration before decoder_set_jsgf_string(); what the start-rule lookup of the SAME text gives is
+ * printed first (the expected verdict); afterwards the parameters go back to their defaults and a known valid
+ * grammar is installed and used: a refusal must have come back as -1 with the decoder still usable ---- */
+static double cfg_saved_lw;
+static int cfg_saved_alt, cfg_saved_fil;
+static void jsgf_cfg_apply(const char *spec, const char *text)
+{
+    char buf[600], *f[4], *p;
+    int nf = 0;
+    char *top = NULL;
+    size_t tl = 0;
+    snprintf(buf, sizeof buf, "%s", spec);
+    for (p = buf; nf < 4; ) {
+        f[nf++] = p;
+        p = strchr(p, ':');
+        if (!p) break;
+        *p++ = 0;
+    }
+    cfg_saved_lw = config_float(D->config, "lw");
+    cfg_saved_alt = config_bool(D->config, "fsgusealtpron");
+    cfg_saved_fil = config_bool(D->config, "fsgusefiller");
+    if (nf > 0 && strcmp(f[0], "-")) {
+        unsigned char *tb = vf_parse_hex(f[0], &tl);
+        top = cstr(tb, tl);
+        free(tb);
+    }
+    if (nf > 1) config_set_float(D->config, "lw", atof(f[1]));
+    if (nf > 2) config_set_bool(D->config, "fsgusealtpron", atoi(f[2]));
+    if (nf > 3) config_set_bool(D->config, "fsgusefiller", atoi(f[3]));
+    if (top) {
+        jsgf_t *j = jsgf_parse_string(text, NULL);
+        config_set_str(D->config, "toprule", top);
+        if (j == NULL) printf("%s toprule parse=0\n", cur_id);
+        else {
+            jsgf_rule_t *r = jsgf_get_rule(j, top);
+            fsg_model_t *fm = r ? jsgf_build_fsg(j, r, D->lmath, (float32)config_float(D->config, "lw")) : NULL;
+            int w, known = fm != NULL;
+            for (w = 0; fm && w < fm->n_word; w++)
+                if (dict_wordid(D->dict, fm->vocab[w]) == BAD_S3WID) known = 0;
+            printf("%s toprule parse=1 found=%d public=%d build=%d known=%d\n", cur_id, r != NULL, r ? jsgf_rule_public(r) : 0, fm != NULL, known);
+            fsg_model_free(fm);
+            jsgf_grammar_free(j);
+        }
+        first_err[0] = 0; err_kind = NULL;
+        free(top);
+    } else
+        printf("%s toprule absent\n", cur_id);
+}
+
+static void jsgf_cfg_after(void)
+{
+    static const char good[] = "#JSGF V1.0;\ngrammar after;\npublic <cmd> = go forward ten meters;\n<other> = ten;\n";
+    int rc;
+    config_set_str(D->config, "toprule", NULL);
+    config_set_float(D->config, "lw", cfg_saved_lw);
+    config_set_bool(D->config, "fsgusealtpron", cfg_saved_alt);
+    config_set_bool(D->config, "fsgusefiller", cfg_saved_fil);
+    drop_search();
+    rc = decoder_set_jsgf_string(D, good);
+    printf("%s after %d\n", cur_id, rc);
+    if (rc == 0) run_utt(0);
+}
+
 static void case_jsgf(unsigned char *b, size_t n, const char *flag)
 {
     char *s = cstr(b, n);
@@ -620,9 +685,12 @@ static void case_jsgf(unsigned char *b, size_t n, const char *flag)
         }
     }
     {
-        int rc = decoder_set_jsgf_string(D, s);
+        int cfgd = flag && !strncmp(flag, "cfg:", 4), rc;
+        if (cfgd) jsgf_cfg_apply(flag + 4, s);
+        rc = decoder_set_jsgf_string(D, s);
         printf("%s set %d\n", cur_id, rc);
         if (rc == 0) run_utt(0);
+        if (cfgd) jsgf_cfg_after();
     }
     drop_search();
     free(s);
